@@ -18,6 +18,7 @@ def long_fills(rng, tier):
     sc = []
     for n in ([4097, 8193, 12289, 16385, 40000] if tier == "quick" else [4097, 12289, 16385, 65537, 100001, 300000]):
         sc += ["repeat 3 %d" % n, "fill [%s] 9" % ",".join(["0"] * n)]
+        sc += ["fillz %d %d" % (n, k) for k in range(6)]   # float -0, non-comparable, string, struct element types
     return sc
 
 
@@ -44,6 +45,7 @@ def explore(core, rng, tier, seed, search=False):
     for n in range(21):
         vals = [rng.randrange(50) for _ in range(n)]
         sc += ["fill %s 7" % lst(vals), "repeat 3 %d" % n, "reverse %s" % lst(vals), "clone %s" % lst(vals)]
+        sc += ["fillz %d %d" % (n, k) for k in range(6)]
         m = rng.randrange(6)
         sc.append("concat %s %s" % (lst(vals), lst([rng.randrange(50) for _ in range(m)])))
     scripts.append(sc)
